@@ -55,7 +55,7 @@ CLAIMED["C19"] = (
     "each WriteWrapper construction is paired with take_err on the error path, and take_err yields WriteFailure with "
     "the io::Error as source; macros render into their own buffer.  Decides 'never swallowed / converted / panics' "
     "for every path of the engine's own code (thorough: in four feature configurations); the prefix/ordering of "
-    "delivered bytes is value-level and not decided. Later additions: (O6) in the escaping / output code no write on a sink can run after an earlier write on it failed (every path between two writes tests the first result).",
+    "delivered bytes is value-level and not decided. Later additions: (O6) in the escaping / output code no write on a sink can run after an earlier write on it failed (every path between two writes tests the first result); (O7) every WriteWrapper is built around the entry point's own writer parameter, never around the result of a call (a buffering adapter writes late, after a reported failure, and ignores the result).",
     "DESIGN.md §3 C19",
     "std::fmt machinery is trusted to propagate Err from write_str; host-supplied formatters/objects are assumed to propagate.")
 
@@ -198,7 +198,7 @@ CLAIMED["C05"] = (
     "and the for-else body are parsed with in_loop reset; in the VM every nested-evaluation helper closes what it "
     "opens on every path (reviewed error-path exception), with_execution_state writes back what it replaced, and the "
     "handlers of the scope instructions perform exactly their operation.  This decides the property's structural "
-    "content for all templates the compiler accepts and all control-flow paths of the emitted code. Also: the scope walk of break/continue and their jump-target searches scan the pending blocks in the same direction; every instruction emitted at the loop end ahead of PopLoopFrame pushes nothing on the interpreter paths of a recursive loop invocation. Later additions: conversely, every closer (decr_depth, reset_closure, BlockStack::pop) is reachable only after its opener succeeded on that path (flags tested twice and never written are case-split).",
+    "content for all templates the compiler accepts and all control-flow paths of the emitted code. Also: the scope walk of break/continue and their jump-target searches scan the pending blocks in the same direction; every instruction emitted at the loop end ahead of PopLoopFrame pushes nothing on the interpreter paths of a recursive loop invocation. Later additions: conversely, every closer (decr_depth, reset_closure, BlockStack::pop) is reachable only after its opener succeeded on that path (flags tested twice and never written are case-split). B8: every value assigned to the interpreter's program counter is a jump operand of the fetched instruction, a constant, pc + k, a return address whose every producer (traced across functions) is pc + k of the same interpreter, or a position remembered in an object used only behind a comparison of the running instructions' identity with the identity stored beside it, the pair being built from the interpreter's own state and counter.",
     "DESIGN.md §3 C05",
     "Patched jump targets are tied to the pending-block nesting the check verifies; the run-time meaning of frames/captures themselves is trusted.")
 
@@ -210,8 +210,8 @@ CLAIMED["C18"] = (
     "be visited by the tracker (reviewed exclusions: multi-template name expressions), where the generator "
     "evaluates a field before assigning another the tracker must not assign first, and a variable is reported "
     "exactly when it is not assigned.  This decides soundness of the tracker's traversal against the engine's own "
-    "evaluation order for all templates; the implicit names (loop/self/super/caller) and lookups performed by host "
-    "objects are not decided. Also: every public entry point returns, unfiltered, what find_undeclared computed on every path except the parse-error exit. Later additions: (W5) implicit names: pre-assigned constants must be names the interpreter binds (loop, caller), assigned inside the construct's own scope, loop only after the loop filter was visited, a macro's name only after the macro was visited.",
+    "evaluation order for all templates; lookups performed by host "
+    "objects and by the debug feature around a failing instruction are not decided. Also: every public entry point returns, unfiltered, what find_undeclared computed on every path except the parse-error exit. Later additions: (W5) implicit names: pre-assigned constants must be names the interpreter binds (loop, caller), assigned inside the construct's own scope, loop only after the loop filter was visited, a macro's name only after the macro was visited, and a name the interpreter stores only `if let Some` is Some on every producer path (traced across functions) except under the construct's does-not-mention flag; (W1b) what the code generator evaluates inside an assignment target is visited by the tracker's target walker itself.",
     "DESIGN.md §3 C18",
     "One known finding (macro argument defaults) is listed; its repair would change macro closure capture.")
 
